@@ -564,6 +564,54 @@ func ensureValue(v reflect.Value) reflect.Value {
 	return v
 }
 
+// assignable 返回一个可直接交给 reflect 的 Set/SetMapIndex、类型为 typ 的值：
+// v 本身可赋值时原样返回；v 与 Deref(typ) 同 Kind 且可转换时（命名类型、指针元素）
+// 返回转换后的值，typ 为指针时放入新分配的指针；其余情况返回类型不匹配，而不是 panic。
+func assignable(typ reflect.Type, v reflect.Value) (reflect.Value, error) {
+	if !v.IsValid() {
+		return emptyValue, errTypeMismatch
+	}
+
+	if v.Type().AssignableTo(typ) {
+		return v, nil
+	}
+
+	baseType := Deref(typ)
+	if v.Kind() != baseType.Kind() || !v.Type().ConvertibleTo(baseType) {
+		return emptyValue, errTypeMismatch
+	}
+
+	v = v.Convert(baseType)
+	if typ.Kind() != reflect.Ptr {
+		return v, nil
+	}
+
+	target := reflect.New(baseType)
+	if !target.Type().AssignableTo(typ) {
+		// 多级指针等无法由单层指针表示的类型
+		return emptyValue, errTypeMismatch
+	}
+
+	target.Elem().Set(v)
+	return target, nil
+}
+
+// setMapIndex 把 key、elem 调整为字典 m 的键、元素类型后写入；无法调整时返回类型不匹配。
+func setMapIndex(m, key, elem reflect.Value) error {
+	k, err := assignable(m.Type().Key(), key)
+	if err != nil {
+		return err
+	}
+
+	e, err := assignable(m.Type().Elem(), elem)
+	if err != nil {
+		return err
+	}
+
+	m.SetMapIndex(k, e)
+	return nil
+}
+
 func implicitValueRequiredStruct(tag string, tp reflect.Type) (bool, error) {
 	numFields := tp.NumField()
 	for i := 0; i < numFields; i++ {
